@@ -337,6 +337,21 @@ func streamTrim(seed int64, rounds int, want map[string]bool, enc *json.Encoder)
 			ids := make([]string, producers)
 			var wg sync.WaitGroup
 			start := make(chan struct{})
+			// a reader beside the producers: XADD trims under the key's lock, so no XRANGE may ever see more than MAXLEN entries
+			var over atomic.Value
+			wg.Add(1)
+			go func() {
+				defer wg.Done()
+				<-start
+				for q := 0; q < 3; q++ {
+					o, _ := runCmd(mgr, "XRANGE", key, "-", "+")
+					if strings.HasPrefix(o, "*") {
+						if c, err := strconv.Atoi(o[1:strings.Index(o, "\r\n")]); err == nil && c > n && b >= 3 {
+							over.CompareAndSwap(nil, fmt.Sprintf("XRANGE %s - + answered %d entries while every XADD on that stream carries MAXLEN %s", key, c, maxlen))
+						}
+					}
+				}
+			}()
 			for p := 0; p < producers; p++ {
 				wg.Add(1)
 				go func(p int) {
@@ -348,7 +363,11 @@ func streamTrim(seed int64, rounds int, want map[string]bool, enc *json.Encoder)
 			}
 			close(start)
 			wg.Wait()
-			rep.Ops += producers
+			rep.Ops += producers + 3
+			if o := over.Load(); o != nil {
+				rep.Result, rep.Detail = "not-linearizable", o.(string)
+				break
+			}
 			var reported [][2]uint64
 			for _, o := range ids {
 				if !strings.HasPrefix(o, "$") {
@@ -395,6 +414,70 @@ func streamTrim(seed int64, rounds int, want map[string]bool, enc *json.Encoder)
 				rep.Result = "not-linearizable"
 				rep.Detail = fmt.Sprintf("after %d concurrent XADD %s MAXLEN %s * (every one answered with an ID) XRANGE - + holds %d entries and %d of the %d greatest reported IDs %v; MAXLEN %s must keep exactly the newest %s",
 					producers, key, maxlen, top, got, imin(n, len(reported)), gotIDs, maxlen, maxlen)
+			}
+		}
+		enc.Encode(rep)
+	}
+}
+
+// bpoptime (C09, C04): "only the documented blocking commands may delay their reply, and by no more than their timeout" has a converse the list property
+// needs as well: a blocking pop on a list that stays empty answers nil AT its timeout, not before - an element pushed inside the timeout must still find the
+// popper.  Each round: (1) 8 poppers issue BLPOP/BRPOP q 0.001 while one bulk RPUSH q (150 000 elements, tens of milliseconds under the key's lock) is under
+// way - they wait for the lock, their millisecond passes, and each is then SERVED an element; (2) the queue is deleted; (3) 8 pops with a timeout of 30 ms on
+// a key that stays empty must each take at least 24 ms to answer nil.  (Seeded change C09-pooled-pop-clock-stale-timer: timers taken from a pool; one that
+// had fired while its pop was being served made the next pop that got it give up at once.)
+func bpopTime(seed int64, rounds int, want map[string]bool, enc *json.Encoder) {
+	if !want["all"] && !want["bpoptime"] {
+		return
+	}
+	bulk := []string{"RPUSH", "q"}
+	for i := 0; i < 150000; i++ {
+		bulk = append(bulk, "x")
+	}
+	for r := 0; r < rounds; r++ {
+		rep := concReport{Scenario: "bpoptime", Seed: seed + int64(r), Goroutines: 9, Shards: []int{1, 1024}[r%2]}
+		config.Configures.ShardNum = rep.Shards
+		mgr := server.NewManager(config.Configures)
+		rep.Result = "ok"
+		for it := 0; it < 25 && rep.Result == "ok"; it++ {
+			var wg sync.WaitGroup
+			for g := 0; g < 8; g++ {
+				wg.Add(1)
+				go func(g int) {
+					defer wg.Done()
+					time.Sleep(time.Duration(1+g%3) * time.Millisecond) // the bulk push is under way
+					cmd := "BLPOP"
+					if g%2 == 1 {
+						cmd = "BRPOP"
+					}
+					runCmd(mgr, cmd, "q", "0.001")
+				}(g)
+			}
+			runCmd(mgr, bulk...)
+			wg.Wait()
+			runCmd(mgr, "DEL", "q")
+			rep.Ops += 10
+			var bad atomic.Value
+			for g := 0; g < 8; g++ {
+				wg.Add(1)
+				go func(g int) {
+					defer wg.Done()
+					key := fmt.Sprintf("empty%d", g)
+					t0 := time.Now()
+					out, p := runCmd(mgr, "BLPOP", key, "0.03")
+					el := time.Since(t0)
+					if p || out != "*-1\r\n" {
+						bad.CompareAndSwap(nil, fmt.Sprintf("BLPOP %s 0.03 on a key that never holds anything answered %q", key, out))
+					} else if el < 24*time.Millisecond {
+						bad.CompareAndSwap(nil, fmt.Sprintf("BLPOP %s 0.03 answered nil after %v, long before its timeout of 30 ms (an element pushed inside the timeout would have found no popper); "+
+							"before it, 8 pops with a 1 ms timeout had been served elements after waiting for the key's lock behind a bulk RPUSH", key, el))
+					}
+				}(g)
+			}
+			wg.Wait()
+			rep.Ops += 8
+			if b := bad.Load(); b != nil {
+				rep.Result, rep.Detail = "invariant", b.(string)
 			}
 		}
 		enc.Encode(rep)
